@@ -23,6 +23,9 @@ def build_file(f, d):
     if f["hf"]:
         kw["rtf_page_header"] = rtf.RTFPageHeader(text="~PH%d~" % f["id"])
         kw["rtf_page_footer"] = rtf.RTFPageFooter(text="~PF%d~" % f["id"])
+    if f.get("tail") == "para":
+        # the document body ends with a paragraph group (source line below the table / figure)
+        kw["rtf_source"] = rtf.RTFSource(text="~SRC%d~" % f["id"])
     if f["kind"] == "figure":
         figs = [colordocs.tiny_png(os.path.join(d, "f%d_%d.png" % (f["id"], k)), w=2 + k, h=2 + f["id"]) for k in range(f["pages"])]
         title = rtf.RTFTitle(text="~T%d~" % f["id"], **({"text_color": "red"} if f["color"] else {}))
